@@ -237,7 +237,8 @@ impl DemoEngine {
                         if !have_tick {
                             continue;
                         }
-                        let d = data(cfg.seed, raw_len(len, fill).min(12_000), fill, salt);
+                        // arbitrary content up to 12 KiB; compressible content up to beyond the 64 KiB the reader can return
+                        let d = data(cfg.seed, if fill % 3 == 0 { (len as usize).min(70_000) } else { raw_len(len, fill).min(12_000) }, fill, salt);
                         w.write_message(&d).map_err(|e| format!("write_message: {}", e))?;
                         let mut padded = d.clone();
                         while padded.len() % 4 != 0 {
@@ -522,7 +523,7 @@ impl Engine for DemoEngine {
             sha256: c.chance(1, 2),
             hdr: [*c.pick(&[0u8, 1, 10, 62, 63]), *c.pick(&[0u8, 1, 10, 62, 63]), *c.pick(&[0u8, 1, 10, 18, 19])],
             map_len: *c.pick(&[0u32, 1, 100, 5000, 70_000]),
-            first_tick: *c.pick(&[0i32, 0, 1, 1000, 2_000_000_000]),
+            first_tick: *c.pick(&[0i32, 0, 1, 1000, 2_000_000_000, -1, -1000, i32::MIN, i32::MIN + 7]),
             io,
             max_read,
         };
@@ -545,7 +546,7 @@ impl Engine for DemoEngine {
                 3..=6 => s.range(0, 400) as u32,
                 7 => s.range(400, 4000) as u32,
                 8 => s.range(4000, 16_384) as u32,
-                _ => *s.pick(&[16_384u32, 30_000, 60_000]),
+                _ => *s.pick(&[16_384u32, 30_000, 60_000, 65_531, 65_532, 65_533, 65_535, 65_536, 65_537, 65_540, 70_000]),
             }
         };
         if typed {
@@ -572,6 +573,7 @@ impl Engine for DemoEngine {
                             0 => *s.pick(&[30u32, 31, 32, 33, 62, 63, 64, 65]),
                             1 => s.range(20, 80) as u32,
                             2 => s.range(100, 1_000_000) as u32,
+                            3 => *s.pick(&[0x7fff_ffffu32, 0x8000_0000, 0x8000_0001, 0x8000_001f, 0x8000_0020, 0xffff_fff0, 3_000_000_000]),
                             _ => s.range(1, 10) as u32,
                         };
                         ops.push(DemoOp::Tick { inc, keyframe: s.chance(1, 5) });
